@@ -52,6 +52,9 @@ pub fn frame_choices(rng: &mut Rng, max_trees: usize) -> usize {
         (nt - 1) * TREE_FRAMES + HUGE_FRAMES + 1,
         (nt - 1) * TREE_FRAMES + 1 + rng.below(TREE_FRAMES),
     ];
+    if rng.chance(1, 15) {
+        return 0; // zero managed frames: every call must fail gracefully
+    }
     (*rng.pick(&opts)).max(1)
 }
 
@@ -234,7 +237,7 @@ impl Gen<'_> {
         } else if self.flavor == Flavor::InitCycle && self.rng.chance(1, 2) {
             // boundary-dense small counts: around rows, huge frames, trees
             match self.rng.below(5) {
-                0 => 1 + self.rng.below(130),
+                0 => self.rng.below(131), // includes a zero-frame allocator
                 1 => (64 * (1 + self.rng.below(2 * ROWS)) + self.rng.below(3)).saturating_sub(1).max(1),
                 2 => (HUGE_FRAMES * (1 + self.rng.below(2 * TREE_HUGE + 1)) + self.rng.below(3)).saturating_sub(1),
                 3 => (TREE_FRAMES * (1 + self.rng.below(max_trees)) + self.rng.below(3)).saturating_sub(1),
@@ -511,6 +514,41 @@ impl Gen<'_> {
 
     /// one history of about `len` operations
     pub fn history(&mut self, len: usize) {
+        if self.eng.inst.is_some() && self.cfg().frames == 0 {
+            // zero managed frames: no frame-indexed query is valid; every call must answer without a panic
+            for _ in 0..len.min(40) {
+                let class = self.rand_class();
+                let local = self.rand_local(class);
+                let order = self.rand_order();
+                match self.rng.below(8) {
+                    0 | 1 => {
+                        self.q(format!("get {order} {class} {} -", opt(local)));
+                    }
+                    2 => {
+                        self.q(format!("get {order} {class} {} 0", opt(local)));
+                    }
+                    3 => {
+                        self.q(format!("put 0 {order} {class} {}", opt(local)));
+                    }
+                    4 => {
+                        self.q("drain".into());
+                    }
+                    5 => {
+                        let op = *self.rng.pick(&["on", "off", "-"]);
+                        let id = if self.rng.chance(1, 2) { Some(self.rng.below(3)) } else { None };
+                        self.q(format!("change {} - 0 - {op}", opt(id)));
+                    }
+                    _ => {
+                        self.q("stats".into());
+                        self.q("tstats".into());
+                        self.q("validate".into());
+                    }
+                }
+                self.q("hash".into());
+            }
+            self.q("dump".into());
+            return;
+        }
         if self.flavor == Flavor::InitCycle {
             self.init_cycle();
         }
